@@ -76,7 +76,7 @@ def _history(fe):
 
 
 def _case(fe):
-    return st.fixed_dictionaries({'frontend': st.just(fe), 'ops': _history(fe)})
+    return st.fixed_dictionaries({'frontend': st.just(fe), 'ops': _history(fe), 'debug_log': st.sampled_from([False, False, True])})
 
 
 def _run(fe, ops, full, r, flags, trace):
@@ -260,9 +260,13 @@ def run_case(case):
     a = _run(fe, case['ops'], False, r, set(), [])
     if a is None:
         return r
-    b = _run(fe, case['ops'], True, r, flags, trace)
+    # (the wrapped run of some cases has the library's loggers at DEBUG: observable behaviour must not depend on the log level)
+    with net.debug_logging(bool(case.get('debug_log'))):
+        b = _run(fe, case['ops'], True, r, flags, trace)
     if b is None:
         return r
+    if case.get('debug_log'):
+        flags.add('debug-log')
     for part in ('outcomes', 'calls', 'sent'):
         if a[part] != b[part]:
             r.bad(f'C10/{fe}/envelope-not-transparent/{part}', f'minimal: {str(a[part])[:250]}  wrapped: {str(b[part])[:250]}')
